@@ -130,6 +130,16 @@ def mk_srv1(a):
     stamp = bytes(p["stamp"])
     if via == "create":
         tc = mk_tc(a["tc"][0])
+        # a request ID was obtained for this telecommand before (e.g. to register it) and that OBJECT was then given other
+        # contents through its public attributes; reports built for the telecommand carry the telecommand's ID regardless
+        try:
+            from spacepackets.ecss.req_id import RequestId
+            from spacepackets.ccsds.spacepacket import PacketSeqCtrl, SequenceFlags
+            r0 = RequestId.from_pus_tc(tc)
+            r0.tc_psc = PacketSeqCtrl(SequenceFlags.FIRST_SEGMENT, (tc.seq_count + 1) % 16384)
+            r0.ccsds_version = 5
+        except Exception:  # noqa
+            pass
         sub = p["sub"]
         assert (p["seq"], p["ver"], p["timeref"], p["dest"]) == (0, 0, 0, 0)
         if sub == 1:
